@@ -503,6 +503,9 @@ type runner struct {
 	deadline time.Duration // wall-clock limit between two lines of a child (deadlock backstop)
 	cpuLimit time.Duration // CPU time one job may burn: load-independent hang criterion
 	extra    map[int]time.Duration // + allowance per input, linear in the number of pieces of the accepted description
+	smallCPU time.Duration         // when > 0: CPU budget of a job whose input is at most smallLen bytes (instead of cpuLimit)
+	smallLen int
+	inLen    func(id int) int
 	retried  map[string]bool
 	mu       sync.Mutex
 	lines    []line
@@ -561,7 +564,11 @@ func (r *runner) runBatch(worker int, jobs []job, scale int) {
 			switch l["ph"] {
 			case "job":
 				cpu0 = cpuOf(cmd.Process.Pid)
-				limit = time.Duration(scale) * (r.cpuLimit + r.extra[idOf(l)])
+				base := r.cpuLimit
+				if r.smallCPU > 0 && r.inLen != nil && r.inLen(idOf(l)) <= r.smallLen {
+					base = r.smallCPU // work bounded by the input size: a small input gets a small (still very generous) budget
+				}
+				limit = time.Duration(scale) * (base + r.extra[idOf(l)])
 			case "begin":
 				pending = l["l"].(map[string]any)
 			case "case":
@@ -701,6 +708,8 @@ func (r *runner) runAll(jobs []job, workers, batch int) {
 	wg.Wait()
 }
 
+var reWideLen = regexp.MustCompile(`[0-9]{10,}:`)
+
 func projKey(l line) string {
 	b, _ := json.Marshal([]any{l["pl"], l["n"], l["lens"], l["pad"]})
 	return string(b)
@@ -805,6 +814,13 @@ func parentMain(casesPath, outPath, scratch string, seed int64, nmut, workers, r
 	writeInputs(inputsPath, ins)
 	r := &runner{self: self, inputs: inputsPath, scratch: scratch, memcap: 3072, deadline: 240 * time.Second, cpuLimit: 150 * time.Second, retried: map[string]bool{}}
 
+	r.smallCPU, r.smallLen = 10*time.Second, 64<<10
+	r.inLen = func(id int) int {
+		if id < 0 || id >= len(ins) {
+			return 1 << 30
+		}
+		return len(ins[id].data)
+	}
 	// phase A: parser (+ NewInfo variants on generated cases) and Session.AddTorrent (stopped) on every input
 	var jobs []job
 	for i := range ins {
@@ -917,6 +933,7 @@ func parentMain(casesPath, outPath, scratch string, seed int64, nmut, workers, r
 	r.memcap = 1024
 	r.deadline = 60 * time.Second
 	r.cpuLimit = time.Duration(cpuMs) * time.Millisecond
+	r.smallCPU = 0
 	wg.Add(1)
 	go func() { // URL jobs mostly wait for time-outs: small batches next to the bulk
 		defer wg.Done()
@@ -951,6 +968,11 @@ func parentMain(casesPath, outPath, scratch string, seed int64, nmut, workers, r
 			l["overrun"] = 1
 		} else {
 			l["overrun"] = 0
+		}
+		if reWideLen.Match(ins[id].data) {
+			l["strwide"] = 1 // some string declares its length with 10 or more digits (above 2^31: the declared-length family)
+		} else {
+			l["strwide"] = 0
 		}
 		if len(ins[id].data) <= 600 {
 			l["hex"] = fmt.Sprintf("%x", ins[id].data)
